@@ -194,7 +194,8 @@ impl MCOptimiser {
         let mut step_ratio = 1.;
         let mut convergence_count = 0;
 
-        for loop_counter in 1..=(self.steps / self.inner_steps) {
+        // With no steps requested there are no loops to run, rather than a division by zero.
+        for loop_counter in 1..=self.steps.checked_div(self.inner_steps).unwrap_or(0) {
             let score_start = score_current;
             let mut loop_rejections: u64 = 0;
             for _ in 0..self.inner_steps {
